@@ -718,7 +718,9 @@ theorem step_sim {F : Fns} {w1 w2 : World} (hs : Sim F w1 w2) (c : Call) :
     | some cls => exact runProg_sim hs _
   | bibtexRun style files =>
     simp only [step]
-    exact withReader_sim false hs _ files (fun a1 a2 r ha => runProg_sim ha _)
+    cases F.bstError style with
+    | some e => exact ⟨rfl, hs⟩
+    | none => exact withReader_sim false hs _ files (fun a1 a2 r ha => runProg_sim ha _)
   | pythonRun style files =>
     simp only [step]
     rw [findPlugin_sim hs, newReader, hs.months]
@@ -789,7 +791,9 @@ theorem step_frame (F : Fns) (w : World) (c : Call) (hc : c.isPublic = true) : F
     | some cls => exact runProg_frame F w _
   | bibtexRun style files =>
     simp only [step]
-    exact withReader_frame F false w _ files (fun a r => runProg_frame F a _)
+    cases F.bstError style with
+    | some e => exact Frame.refl w
+    | none => exact withReader_frame F false w _ files (fun a r => runProg_frame F a _)
   | pythonRun style files =>
     simp only [step]
     cases findPlugin F w inputGroup bibtexName with
@@ -867,6 +871,7 @@ def toyFns : Fns where
   person := fun s => .ok (s, s.contains ',')
   entryPoint := fun g n => if g = inputGroup ∧ n = bibtexName then some bibtexParserCls else none
   plugin := fun _ a => match a with | .text s => .done s | .docs _ => .done []
+  bstError := fun style => if style = [] then some (.other "no style".toList) else none
   bstMacros := fun _ => [("jan".toList, "Jan.".toList)]
   bst := fun _ r =>
     match r.entries with
